@@ -176,3 +176,122 @@ class common_blockdim:
         yield {"blockdims": [(3,), (2, 1)]}
         yield {"blockdims": [(2, 2), (3, 1)]}
         yield {"blockdims": [(2, 2), (3, 2)]}
+
+
+# ---------------------------------------------------------------------------
+# _rechunk_stage_transfer, proved (known sizes): 0 <= min <= max, never NaN
+# ---------------------------------------------------------------------------
+def _rst_common(v):
+    """facts about the walk shared by the two loops (v: current variables; `it` is the index of the new block)"""
+    import z3
+    old, new, n, u = v.old, v.new, v.n_intersections, v.useq
+    cov = S.If(v.old_start >= v.new_start, v.old_start - v.new_start, 0)
+    return {
+        "j": S.And(0 <= v.j, v.j < S.slen(old)),
+        "counts": S.And(S.slen(n) == S.slen(old), S.slen(u) == S.slen(old),
+                        S.forall_idx(old, lambda i: S.And(S.at(n, i) >= 0, 0 <= S.at(u, i), S.at(u, i) <= S.at(old, i) * S.at(n, i)))),
+        "old_start": v.old_start == z3.ToReal(S.prefix(old, v.j)),
+        "new_start": v.new_start == z3.ToReal(S.prefix(new, v.it)),
+        "old-block-reaches-new-start": S.prefix(old, v.j + 1) >= S.prefix(new, v.it),
+        "uncut-is-ghost-sum": v.u_ax == z3.ToReal(S.ssum(u)),
+        "largest": S.And(0 <= v.s_ax, v.s_ax <= v.l_ax, v.l_ax <= v.new_start),
+    }, cov
+
+
+def _rst_outer(v, v0):
+    r, _ = _rst_common(v)
+    r["old-start-not-ahead"] = S.prefix(v.old, v.j) <= S.prefix(v.new, v.it)
+    return r
+
+
+def _rst_inner(v, v0):
+    r, cov = _rst_common(v)
+    r["old-start-within-new-block"] = v.old_start <= v.new_end
+    r["best"] = S.And(0 <= v.best, v.best <= cov, v.n_sources >= 0)
+    r["no-source-nothing-covered"] = S.Implies(v.n_sources == 0, S.And(v.best == 0, cov == 0))
+    r["one-source-is-the-cover"] = S.Implies(v.n_sources == 1, v.best == cov)
+    return r
+
+
+def _rst_ghost_init(v):
+    import z3
+    return {"useq": SeqV(S.f_rep(z3.IntVal(0), S.slen(v.old)), "list")}
+
+
+def _rst_ghost_uncut(v):
+    u = v.useq
+    return {"useq": SeqV(S.f_update(u.t, v.j, S.at(u, v.j) + S.at(v.old, v.j)), "list")}
+
+
+def _rst_reads_hint(v):
+    # r_ax is sum(out) for the comprehension's sequence out[i] = old[i] * n[i]; the ghost u is pointwise below it
+    out = SeqV(v.r_ax.arg(0), "tuple")
+    return {"__hints__": [("lemma", "sum_mono", v.useq, out), ("lemma", "prefix_nonneg", v.useq)]}
+
+
+from pyvc.spec import SeqV  # noqa: E402
+
+
+def _axes(t):
+    from pyvc.spec import TupV
+    return list(t.items) if isinstance(t, TupV) else list(t)
+
+
+class _rst_base:
+    result = "tup:real,real"
+
+    def requires(old_chunks, new_chunks, itemsize):
+        cs = [itemsize >= 0]
+        for o, n in zip(_axes(old_chunks), _axes(new_chunks)):
+            cs += [S.chunking(o), S.chunking(n), S.slen(o) >= 1, S.slen(n) >= 1, S.ssum(o) == S.ssum(n)]
+        return S.And(*cs)
+
+    def facts(old_chunks, new_chunks, itemsize):
+        out = []
+        for t in _axes(old_chunks) + _axes(new_chunks):
+            out += [("mono_prefix", t), ("prefix_nonneg", t)]
+        return out
+
+    def ensures(result, old_chunks, new_chunks, itemsize):
+        from pyvc.spec import NanV, RealV
+        lo, hi = _axes(result)
+        if isinstance(lo, NanV) or isinstance(hi, NanV):
+            return {"nan-only-when-unknown": False}
+        if isinstance(lo, RealV):
+            nn = S.And(S.Not(lo.nan), S.Not(hi.nan)) if (lo.nan is not False or hi.nan is not False) else True
+            return {"nan-only-when-unknown": nn, "ordered": S.And(0 <= lo.t, lo.t <= hi.t)}
+        return {"nan-only-when-unknown": lo == lo and hi == hi, "ordered": 0 <= lo <= hi}
+
+    loops = {
+        "for#2": Loop(invariant=_rst_outer),
+        "while#1": Loop(invariant=_rst_inner, decreases=lambda v, v0: S.slen(v.old) - v.j),
+    }
+    after = {
+        "u_ax = 0.0": (["useq"], _rst_ghost_init),
+        "u_ax += old[j]": (["useq"], _rst_ghost_uncut),
+        "r_ax = sum((c * n for c, n in zip(old, n_intersections)))": ([], _rst_reads_hint),
+    }
+
+
+@contract(f"{RC}::_rechunk_stage_transfer", spec="known-r1", props=["C27"])
+class rechunk_stage_transfer_r1(_rst_base):
+    """one axis, known sizes: the estimate is a pair with 0 <= min <= max and is never NaN."""
+    params = {"old_chunks": "tup:seq", "new_chunks": "tup:seq", "itemsize": "int"}
+
+    def domain(tier, rng):
+        for d in rechunk_stage_transfer.domain(tier, rng):
+            if len(d["old_chunks"]) == 1 and all(isinstance(c, int) for ax in d["old_chunks"] + d["new_chunks"] for c in ax) \
+                    and all(len(ax) >= 1 for ax in d["old_chunks"] + d["new_chunks"]):
+                yield d
+
+
+@contract(f"{RC}::_rechunk_stage_transfer", spec="known-r2", props=["C27"])
+class rechunk_stage_transfer_r2(_rst_base):
+    """two axes, known sizes (the per-axis walks are verified once per axis; the final products are nonlinear real arithmetic)."""
+    params = {"old_chunks": "tup:seq,seq", "new_chunks": "tup:seq,seq", "itemsize": "int"}
+
+    def domain(tier, rng):
+        for d in rechunk_stage_transfer.domain(tier, rng):
+            if len(d["old_chunks"]) == 2 and all(isinstance(c, int) for ax in d["old_chunks"] + d["new_chunks"] for c in ax) \
+                    and all(len(ax) >= 1 for ax in d["old_chunks"] + d["new_chunks"]):
+                yield d
